@@ -615,6 +615,11 @@ class Interp:
             o = self.ev(t.value)
             if isinstance(o, Obj) and o.kind == "rec":
                 self.fset(o, t.attr, v)
+            elif isinstance(o, ClassRef):
+                # process-wide class attribute (e.g. AbstractContract.now): a global location
+                self.__dict__.setdefault("class_attrs", {})[(o.name, t.attr)] = v
+                self.trace.append(("global_write", "%s.%s" % (o.name, t.attr)))
+                self.wrote(-1, "%s.%s" % (o.name, t.attr))
             elif isinstance(o, RowRef):
                 hook = self.heap[o.m.oid].get("setattr_hook")
                 if hook is None or not hook(self, o, t.attr, v):
